@@ -284,6 +284,18 @@ def check_diagnostics(fb, ctx):
                     # a member that stopped being instantiable: skipped, reported
                     ctx.skipped.append("%s:%s %s" % (f, d["line"], d["msg"][:120]))
                     continue
+                via = [short(str(n).split(":")[0]) for n in inst]
+                via = [v for v in via if v.startswith("gmlc/")]
+                if via:
+                    # the error surfaces in a system header, inside the instantiation of a library member for ONE of the
+                    # driver's configurations (std::shared_lock<std::mutex> ...): that instantiation is left out, the others
+                    # are judged; on its own this is 'cannot decide', never a pass
+                    msg = "%s:%s %s (instantiated from %s)" % (f, d["line"], d["msg"][:120], via[0])
+                    if msg not in ctx.skipped:
+                        ctx.skipped.append(msg)
+                    ctx.unknown("unit %s: an instantiation the driver requests no longer compiles - %s; the rules judged the "
+                                "instantiations that do" % (u.name, msg))
+                    continue
                 raise Broken("unit %s does not compile: %s:%s: %s" %
                              (u.name, f, d["line"], d["msg"][:200]))
             else:
@@ -344,16 +356,20 @@ def run_property(prop, tier):
     ctx.log["path_enumeration_loop_bound"] = flow.DEPTH
     mod = importlib.import_module("rules.props." + prop.lower())
     mod.run(ctx)
-    if tier == "thorough":
-        # independent cross-reference over the files the property is anchored in
-        from . import common
-        files = []
-        for line in open(os.path.join(VERIF, "properties.jsonl")):
-            pj = json.loads(line)
-            if pj["id"] == prop:
-                files = [os.path.basename(x) for x in pj.get("anchors", {}).get("files", [])]
-        if files:
-            ctx.step(common.tidy_xref, ctx, prop + ".tidy", files)
+    from . import common
+    files = []
+    for line in open(os.path.join(VERIF, "properties.jsonl")):
+        pj = json.loads(line)
+        if pj["id"] == prop:
+            files = [os.path.basename(x) for x in pj.get("anchors", {}).get("files", [])]
+    if files:
+        # defect classes that break any property of the code they occur in, over the files the property is anchored in
+        ctx.step(common.value_categories, ctx, prop + ".values", files)
+        if prop != "C20":       # C20 has the rule under its own name
+            ctx.step(common.noexcept_user, ctx, prop + ".noexcept-user", files)
+    if tier == "thorough" and files:
+        # independent cross-reference over the same files
+        ctx.step(common.tidy_xref, ctx, prop + ".tidy", files)
     return finish(ctx, mod, t0, n_patterns, units)
 
 
